@@ -30,6 +30,8 @@ ALLOCS = {
     'nested': "int[] l = [it, 5]; { bool[] q = [true, false, true]; write(q[2]); } write(l[0]);",
     # temporaries that live on the array stack without belonging to any variable
     'littemp': "write([it, x, it + x].length); if ([it + 1, 2] is bool) {{ write('t'); }} write([g + it, 7][1]); use([it, x]);",
+    # the owner of an array ends with a compound statement that contains a non-final inner block with its own array
+    'tailnest': "int[] l = [it, 5]; if (it >= 0) { { int[] y = [it, 6, 7]; write(y[2]); } int[] z = [8, it]; write(z[0]); { int yy[x]; yy[0] = 3; write(yy[0]); } write(l[1]); }",
     'vla_nested': "int v[x]; v[0] = 1; for (int j = 0; j < 2; j += 1) { int ww[x]; ww[0] = j; write(ww[0]); } write(v[0]);",
 }
 
@@ -48,6 +50,12 @@ SCOPES = {
     # the allocation precedes a try in the same loop body; the exit route leaves through the try
     'pretrystop': "{A} try {{ write('t'); {E} write('b'); }} stop {{ write('s'); }}",
     'pretryundo': "{A} try {{ write('t'); {E} write('b'); }} undo {{ write('u'); }}",
+    # the allocation is the LAST thing in its block (a closing-brace reset may be merged with the outer one)
+    'tailblock': "{{ write('b'); {E} {A} }}",
+    'tailif': "int[] own = [it, 1]; if (it >= 0) {{ write('b'); {E} {A} }} else {{ write(own[0]); }}",
+    # the stop handler does not fall through: it leaves the loop / goes on with the next iteration
+    'stopbreak': "try {{ {A} {E} write('b'); }} stop {{ write('s'); break; }}",
+    'stopcontinue': "try {{ {A} {E} write('b'); }} stop {{ write('s'); continue; }}",
     'pretrynested': "{A} for (int w = 0; w < 2; w += 1) {{ int[] inner = [w, it]; try {{ {E} write(inner[0]); }} stop {{ write('s'); }} }}",
 }
 EXITS = {
@@ -69,6 +77,12 @@ FUNCS = {
     'tailcall': "int work(int it, int x, int[] can1) {{ {A} int[] loc = [4, 3, 2, 1]; return fin(rev(loc), it); }}",
     'tailcall2': "int work(int it, int x, int[] can1) {{ int[] loc = [4, 3, 2, 1]; {A} if (it == 1) {{ return fin(rev(loc), rev(can1)); }} return fin(rev(loc) + rev(loc), it); }}",
     'youtry': "empty @work(int it, int x, int[] can1) {{ try {{ {A} if (it >= 0) {{ return; }} write('b'); }} stop {{ write('s'); }} }}",
+    # defeat is caught while arrays of the try body (and of defeat functions below it) are live, and the stop handler leaves
+    # by return / break; the function has no array of its own outside the try
+    'youstopret': "empty @work(int it, int x, int[] can1) {{ try {{ {A} !truth_is_defeat(it >= 0); write('b'); }} stop {{ write('s'); return; }} write('e'); }}",
+    'youstopretdeep': "empty @work(int it, int x, int[] can1) {{ try {{ {A} !d1(it); write('b'); }} stop {{ write('s'); if (it >= 0) {{ return; }} }} write('e'); }}",
+    'youstopretval': "int @work(int it, int x, int[] can1) {{ try {{ {A} !d1(it); write('b'); }} stop {{ return 5 + it; }} return 0; }}",
+    'youstopbreak': "empty @work(int it, int x, int[] can1) {{ for (int k = 0; k < 3; k += 1) {{ try {{ {A} !d1(k); write('b'); }} stop {{ write('s'); break; }} }} write('e'); }}",
     'youtryloop': "empty @work(int it, int x, int[] can1) {{ for (int k = 0; k < 3; k += 1) {{ try {{ {A} if (k == 1) {{ break; }} if (k == 0) {{ continue; }} "
                   "write('b'); }} stop {{ write('s'); }} }} }}",
 }
@@ -81,10 +95,12 @@ def programs():
     for sk, stpl in SCOPES.items():
         for ak, a in ALLOCS.items():
             for ek, e in EXITS.items():
-                if ek in ('defeat', 'deepdefeat', 'preemptbreak', 'preemptcontinue') and sk not in ('tryundo', 'trystop', 'preempt', 'pretrystop', 'pretryundo', 'pretrynested'):
+                if ek in ('defeat', 'deepdefeat', 'preemptbreak', 'preemptcontinue') and sk not in ('tryundo', 'trystop', 'preempt', 'pretrystop', 'pretryundo', 'pretrynested', 'stopbreak', 'stopcontinue'):
                     continue
                 if sk == 'preempt' and ek == 'deepdefeat':
                     continue
+                if sk in ('tailblock', 'tailif') and ek == 'continue':
+                    continue        # the exit precedes the allocation here: with one iteration the allocation would never run
                 body = stpl.format(A=a, E=e.format())
                 src = (PRE + "empty @is_you(int n, int x) { int[] can1 = [1, 2]; int[] can2 = [3, 4];\n"
                        f"for (int it = 0; it < n; it += 1) {{ write('('); {body} write(')'); }}" + TAIL + " }\n")
@@ -92,7 +108,7 @@ def programs():
     for fk, ftpl in FUNCS.items():
         for ak, a in ALLOCS.items():
             f = ftpl.format(A=a)
-            callx = 'write(work(it, x, can1));' if fk in ('valreturn', 'tailcall', 'tailcall2') else ('@work(it, x, can1);' if fk.startswith('you') else 'work(it, x, can1);')
+            callx = 'write(work(it, x, can1));' if fk in ('valreturn', 'tailcall', 'tailcall2') else 'write(@work(it, x, can1));' if fk == 'youstopretval' else ('@work(it, x, can1);' if fk.startswith('you') else 'work(it, x, can1);')
             src = (PRE + f + "\nempty @is_you(int n, int x) { int[] can1 = [1, 2]; int[] can2 = [3, 4];\n"
                    f"for (int it = 0; it < n; it += 1) {{ write('('); {callx} write(')'); }}" + TAIL + " }\n")
             out.append((('func:' + fk, ak, 'ret'), src))
@@ -107,6 +123,8 @@ def items(tier):
     progs = programs()
     out = []
     for pi in range(len(progs)):
+        if tier == 'quick' and progs[pi][0][0] == 'tailif' and progs[pi][0][1] not in ('lit', 'vla', 'nested', 'tailnest'):
+            continue
         out.append((pi, pi))
     return out
 
